@@ -938,6 +938,145 @@ def translate_fit_tail(it, name="fit_aberrations_from_shifts", lean_name="fit_ab
     return list(v.known)
 
 
+# ----------------------------------------------------------------------------------------
+# alias loop bodies: `for key, val in <dict>.items(): <body>` evaluated for every key of the finite key universe
+# (all symbols and aliases) plus one sentinel standing for any other key, and for val = None / val = a number
+
+class KeyStr(str):
+    """the loop key: may only be compared (==, in) with literal tables, looked up in them, or used as a dict key"""
+
+
+class SymOut:
+    def __init__(self, code):
+        self.code = code
+
+
+class _PyRaise(Exception):
+    def __init__(self, name):
+        self.name = name
+
+
+SENTINEL = "\x00other-key"
+ERRS = {"KeyError": "keyError", "ValueError": "valueError", "TypeError": "typeError"}
+
+
+class AliasInterp(Interp):
+    def __init__(self, mod, consts):
+        super().__init__(mod)
+        self.consts = consts
+
+    def ev_Name(self, node, sc):
+        if node.id in sc:
+            return sc[node.id]
+        if node.id in self.consts:
+            return self.consts[node.id]
+        if node.id in ("float", "isinstance", "dict"):
+            return ("builtin", node.id)
+        bad(node, "unknown name in an alias loop body")
+
+    def ev_Compare(self, node, sc):
+        if len(node.ops) == 1 and isinstance(node.ops[0], (ast.Is, ast.IsNot)):
+            a, b = self.ev(node.left, sc), self.ev(node.comparators[0], sc)
+            if isinstance(a, Dyn) and b is None:
+                return isinstance(node.ops[0], ast.IsNot)
+        return super().ev_Compare(node, sc)
+
+    def call_builtin(self, node, name, args, kwargs, sc):
+        if name == "float" and len(args) == 1 and not kwargs:
+            if args[0] is None:
+                raise _PyRaise("TypeError")
+            return to_dyn(args[0], node)
+        if name == "isinstance" and len(args) == 2 and args[1] == ("builtin", "dict"):
+            return False        # the loop value is None or a number here; dict values are handled by the caller's recursion
+        return super().call_builtin(node, name, args, kwargs, sc)
+
+    def call_method(self, node, base, attr, args, kwargs):
+        if isinstance(base, KeyStr):
+            bad(node, "string operation on the loop key (only ==, `in`, table lookups are in the grammar)")
+        if isinstance(base, dict) and attr == "get" and 1 <= len(args) <= 2 and not kwargs:
+            return base.get(*args)
+        return super().call_method(node, base, attr, args, kwargs)
+
+    def ev_Subscript(self, node, sc):
+        base = self.ev(node.value, sc)
+        if isinstance(base, dict):
+            idx = self.ev(node.slice, sc)
+            if idx not in base:
+                raise _PyRaise("KeyError")
+            return base[idx]
+        if isinstance(base, KeyStr):
+            bad(node, "indexing the loop key")
+        return super().ev_Subscript(node, sc)
+
+    def ex_Raise(self, s, sc):
+        exc = s.exc.func if isinstance(s.exc, ast.Call) else s.exc
+        if not isinstance(exc, ast.Name) or exc.id not in ERRS:
+            bad(s, "raise of an exception class outside KeyError/ValueError/TypeError")
+        raise _PyRaise(exc.id)
+
+    def assign(self, t, v, sc, s):
+        if isinstance(t, ast.Subscript):
+            base = self.ev(t.value, sc)
+            if isinstance(base, SymOut):
+                k = self.ev(t.slice, sc)
+                if not isinstance(k, str):
+                    bad(s, "store under a non-string key")
+                kcode = "key" if k == SENTINEL else lean_str(k)
+                base.code = f"(QuantemModel.Aberration.dset {base.code} {kcode} {to_dyn(v, s).code})"
+                return
+        return super().assign(t, v, sc, s)
+
+
+def find_items_loop(root):
+    for n in ast.walk(root):
+        if (isinstance(n, ast.For) and isinstance(n.iter, ast.Call) and isinstance(n.iter.func, ast.Attribute)
+                and n.iter.func.attr == "items" and isinstance(n.target, ast.Tuple) and len(n.target.elts) == 2
+                and all(isinstance(e, ast.Name) for e in n.target.elts)):
+            return n
+    return None
+
+
+def translate_alias_step(mod, root, consts, universe, lean_name, what):
+    loop = find_items_loop(root)
+    if loop is None:
+        raise Untranslatable(f"{what}: no `for key, value in <dict>.items()` loop found")
+    kname, vname = (e.id for e in loop.target.elts)
+    stores = sorted({n.value.id for n in ast.walk(loop) if isinstance(n, ast.Subscript) and isinstance(n.ctx, ast.Store)
+                     and isinstance(n.value, ast.Name)})
+    if len(stores) != 1:
+        raise Untranslatable(f"{what}: the loop body must write exactly one dict (found {stores})")
+    outname = stores[0]
+    appended = sorted({n.func.value.id for n in ast.walk(loop) if isinstance(n, ast.Call) and isinstance(n.func, ast.Attribute)
+                       and n.func.attr == "append" and isinstance(n.func.value, ast.Name)})
+
+    def arm(key, val):
+        it = AliasInterp(mod, consts)
+        out = SymOut("out")
+        sc = {kname: KeyStr(key), vname: val, outname: out}
+        for a in appended:
+            sc[a] = []
+        it.cur = (lean_name, [])
+        try:
+            it.exec_block(loop.body, sc)
+        except _Continue:
+            pass
+        except _PyRaise as e:
+            return f"(.error QuantemModel.Aberration.Err.{ERRS[e.name]})"
+        return f"(.ok {out.code})"
+
+    lines = []
+    for i, key in enumerate(list(universe) + [SENTINEL]):
+        a_none, a_some = arm(key, None), arm(key, Dyn("x"))
+        body = f"(match val with | none => {a_none} | some x => {a_some})"
+        if key == SENTINEL:
+            lines.append(f"else {body}")
+        else:
+            lines.append(f"{'if' if i == 0 else 'else if'} key = {lean_str(key)} then {body}")
+    return (f"/-- {what}: one iteration of the `for {kname}, {vname} in ….items()` loop (value `none` = Python `None`) -/\n"
+            f"def {lean_name} (out : List (String × R)) (key : String) (val : Option R) : "
+            f"Except QuantemModel.Aberration.Err (List (String × R)) :=\n  " + "\n  ".join(lines) + "\n")
+
+
 def local_literals(fn, names):
     out = {}
     for n in ast.walk(fn):
@@ -1067,6 +1206,34 @@ def generate():
     fit_keys = translate_fit_tail(it2)
     out.extend(it2.defs)
     out.append(f"/-- keys of the dict returned by fit_aberrations_from_shifts, in order -/\ndef FIT_RESULT_KEYS : List String :=\n  {str_list(fit_keys)}\n")
+    # ---- alias loop bodies (three implementations)
+    universe = list(dict.fromkeys(list(cp.consts["POLAR_SYMBOLS"]) + list(cp.consts["POLAR_ALIASES"])
+                                  + list(vl["POLAR_SYMBOLS"]) + list(vl["POLAR_ALIASES"])))
+    out.append("/-- the finite key universe the alias loop bodies were evaluated on (any other key takes the last arm) -/\n"
+               f"def ALIAS_KEY_UNIVERSE : List String :=\n  {str_list(universe)}\n")
+    cpc = {"POLAR_SYMBOLS": cp.consts["POLAR_SYMBOLS"], "POLAR_ALIASES": cp.consts["POLAR_ALIASES"]}
+    if "standardize_aberration_coefs" not in cp.funcs:
+        raise Untranslatable("standardize_aberration_coefs not found")
+    out.append(translate_alias_step(cp, cp.funcs["standardize_aberration_coefs"], cpc, universe,
+                                    "standardize_aberration_coefs_step", "complex_probe.standardize_aberration_coefs"))
+    out.append(translate_alias_step(val, val.funcs["validate_aberration_coefficients"], vl, universe,
+                                    "validate_aberration_coefficients_step", "validators.validate_aberration_coefficients"))
+    setter = None
+    for n in pm.tree.body:
+        if isinstance(n, ast.ClassDef) and n.name == "ProbeBase":
+            for f in n.body:
+                if isinstance(f, ast.FunctionDef) and f.name == "probe_params" and any(
+                        isinstance(d, ast.Attribute) and d.attr == "setter" for d in f.decorator_list):
+                    setter = f
+    if setter is None:
+        raise Untranslatable("ProbeBase.probe_params setter not found")
+    imported = set()
+    for n in ast.walk(pm.tree):
+        if isinstance(n, ast.ImportFrom) and n.module and n.module.endswith("complex_probe"):
+            imported |= {a.name for a in n.names}
+    if not {"POLAR_SYMBOLS", "POLAR_ALIASES"} <= imported:
+        raise Untranslatable("probe_models.py no longer imports POLAR_SYMBOLS / POLAR_ALIASES from complex_probe")
+    out.append(translate_alias_step(pm, setter, cpc, universe, "probe_params_setter_step", "ProbeBase.probe_params setter"))
     out.append(f"/-- keys written by polar_to_cartesian_aberrations, in order -/\ndef POLAR_TO_CARTESIAN_KEYS : List String :=\n  {str_list(r1[1])}\n")
     out.append(f"/-- keys written by cartesian_to_polar_aberrations, in order -/\ndef CARTESIAN_TO_POLAR_KEYS : List String :=\n  {str_list(r2[1])}\n")
     names = [d.split()[1] for d in it.defs if d.startswith("def ") and not d.split()[1].endswith("_guards")
